@@ -235,3 +235,62 @@ void harness_is_zero(void) {
     if (r) REACH("zero"); else REACH("nonzero");
     free(w);
 }
+
+/* ---- serialise / deserialise round trip of scalar values (C07) --------------------------------------------------------------- */
+#ifndef RTN
+#define RTN 3
+#endif
+struct in_rt { UChar text[RTN]; int quoted; int kind; };
+DECL_IN(in_rt)
+static int rt_same_ustr(const UChar *a, const UChar *b) { for (int i = 0; i <= RTN + 8; i++) { if (a[i] != b[i]) return 0; if (!a[i]) return 1; } return 1; }
+static int rt_same_str(const char *a, const char *b) { if (a == NULL || b == NULL) return a == b; for (int i = 0; i <= 16; i++) { if (a[i] != b[i]) return 0; if (!a[i]) return 1; } return 1; }
+void harness_roundtrip_char(void) {
+    struct in_rt in = GET_IN(in_rt);
+    for (int i = 0; i < RTN; i++) PRE(in.text[i] != 0);
+    PRE(in.quoted == CIF_QUOTED || in.quoted == CIF_NOT_QUOTED);
+    PRE(in.kind == CIF_CHAR_KIND || in.kind == CIF_UNK_KIND || in.kind == CIF_NA_KIND);
+    cif_value_tp *v = malloc(sizeof *v); PRE(v != NULL);
+    v->kind = (cif_kind_tp)in.kind;
+    if (in.kind == CIF_CHAR_KIND) {
+        UChar *t = malloc((RTN + 1) * sizeof(UChar)); PRE(t != NULL);
+        for (int i = 0; i < RTN; i++) t[i] = in.text[i];
+        t[RTN] = 0; v->as_char.text = t; v->as_char.quoted = (cif_quoted_tp)in.quoted;
+    }
+    buffer_tp *buf = NULL;
+    int r = cif_value_serialize(v, &buf);
+    PRE(r == CIF_OK);   /* allocation failure aside */
+    cif_value_tp *w = malloc(sizeof *w); PRE(w != NULL); w->kind = CIF_UNK_KIND;
+    int r2 = cif_value_deserialize(buf->for_writing.start, buf->for_writing.limit, w);
+    PRE(r2 != CIF_MEMORY_ERROR);
+    POST(r2 == CIF_OK && w->kind == v->kind, "C07 a stored value is read back with the same kind");
+    if (r2 == CIF_OK && in.kind == CIF_CHAR_KIND) {
+        POST(w->as_char.quoted == v->as_char.quoted, "C07 quoted status read back unchanged");
+        POST(w->as_char.text != v->as_char.text && rt_same_ustr(w->as_char.text, v->as_char.text), "C07 text read back identical, in storage of its own");
+        REACH("char-roundtrip");
+    }
+    if (in.kind != CIF_CHAR_KIND) REACH("unk-na-roundtrip");
+}
+void harness_roundtrip_numb(void) {
+    struct in_rt in = GET_IN(in_rt);
+    PRE(in.quoted == CIF_QUOTED || in.quoted == CIF_NOT_QUOTED);
+    /* a concrete number text: the point of this lemma is the wire format and the order of the deserialisation steps, not the number grammar (C10) */
+    static const UChar num[] = { '-', '1', '.', '5', '0', 'e', '2', '(', '3', ')', 0 };
+    UChar *t = malloc(sizeof num); PRE(t != NULL);
+    for (unsigned i = 0; i < sizeof num / sizeof num[0]; i++) t[i] = num[i];
+    cif_value_tp *v = malloc(sizeof *v); PRE(v != NULL); v->kind = CIF_UNK_KIND;
+    PRE(cif_value_parse_numb(v, t) == CIF_OK);
+    POST(v->kind == CIF_NUMB_KIND && v->as_numb.quoted == CIF_NOT_QUOTED, "C07/C10 a freshly parsed number is unquoted");
+    v->as_numb.quoted = (cif_quoted_tp)in.quoted;
+    buffer_tp *buf = NULL;
+    PRE(cif_value_serialize(v, &buf) == CIF_OK);
+    cif_value_tp *w = malloc(sizeof *w); PRE(w != NULL); w->kind = CIF_UNK_KIND;
+    int r2 = cif_value_deserialize(buf->for_writing.start, buf->for_writing.limit, w);
+    PRE(r2 != CIF_MEMORY_ERROR);
+    POST(r2 == CIF_OK && w->kind == CIF_NUMB_KIND, "C07 a stored number is read back as a number");
+    if (r2 == CIF_OK) {
+        POST(w->as_numb.quoted == v->as_numb.quoted, "C07 quoted status of a number read back unchanged");
+        POST(rt_same_ustr(w->as_numb.text, v->as_numb.text) && w->as_numb.sign == v->as_numb.sign && w->as_numb.scale == v->as_numb.scale
+             && rt_same_str(w->as_numb.digits, v->as_numb.digits) && rt_same_str(w->as_numb.su_digits, v->as_numb.su_digits), "C07 text, sign, digits, uncertainty and scale read back identical");
+        REACH("numb-roundtrip");
+    }
+}
